@@ -36,8 +36,8 @@ def _alarm(_s, _f):
 
 
 def guarded(fn, limit_s=10.0):
-    old = signal.signal(signal.SIGALRM, _alarm)
-    signal.setitimer(signal.ITIMER_REAL, limit_s)
+    old = signal.signal(signal.SIGVTALRM, _alarm)
+    signal.setitimer(signal.ITIMER_VIRTUAL, limit_s)
     try:
         return ("ok", fn())
     except Timeout:
@@ -47,8 +47,8 @@ def guarded(fn, limit_s=10.0):
             raise
         return ("exc", e)
     finally:
-        signal.setitimer(signal.ITIMER_REAL, 0)
-        signal.signal(signal.SIGALRM, old)
+        signal.setitimer(signal.ITIMER_VIRTUAL, 0)
+        signal.signal(signal.SIGVTALRM, old)
 
 
 # --------------------------------------------------------------------------- building real documents
